@@ -106,7 +106,7 @@ Progress ==
     \/ \E o \in 1..Len(heap) : CallEnabled(heap, Root, Range(called), o)
 
 EmitHeap ==
-  (EmitOn /\ phase = "gen" /\ Complete(heap)) =>
+  (EmitOn /\ phase = "gen" /\ Complete(heap) /\ Prune) =>
     PrintT(ToJson([heap |-> Canon(heap, Root),
                    built |-> Canon(Built(heap), Root),
                    buildables |-> [o \in 1..Len(Canon(heap, Root)) |->
